@@ -7,6 +7,7 @@ import (
 	"encoding/json"
 	"errors"
 	"fmt"
+	"github.com/google/martian/v3/h2"
 	"os"
 	"os/exec"
 	"regexp"
@@ -32,7 +33,13 @@ func TestMain(m *testing.M) {
 
 // Case is one session brought into State, then ended by Event.
 //
-// State: blocked-s2c-bulk (as blocked-s2c, but the server, which gets its credit back from
+// State: blocked-c2s-reset / blocked-s2c-reset (as blocked-c2s / blocked-s2c; the sender then
+// resets the stream whose DATA waits for the receiver's window - a cancelled upload or
+// download - and sends one more frame, a PRIORITY frame for the next stream; ended by
+// client-close, server-close or closing) | grpc-partial (the relay runs the library's gRPC adapter around pass-through
+// processors; on a gRPC stream the client has sent one complete message and the first 3
+// octets of the next one's length prefix; ended by client-close, server-close or closing) |
+// blocked-s2c-bulk (as blocked-s2c, but the server, which gets its credit back from
 // the relay, has sent 1.5 MB on the stream and all of it waits for the client's window;
 // ended by client-close, server-close or closing) | early-credit (as mid; the client then opens stream 3 and widens its window at
 // once, before anything has been relayed toward it on that stream, and the server
@@ -83,7 +90,7 @@ type Case struct {
 var collect = os.Getenv("C10_COLLECT") != ""
 
 var (
-	states   = []string{"dialing", "handshake", "idle-no-alpn", "queued-s2c", "idle", "mid", "blocked-c2s", "blocked-s2c", "backedup-c2s", "backedup-s2c", "backedup-s2c-upload", "early-credit", "burst", "blocked-s2c-bulk"}
+	states   = []string{"dialing", "handshake", "idle-no-alpn", "queued-s2c", "idle", "mid", "blocked-c2s", "blocked-s2c", "backedup-c2s", "backedup-s2c", "backedup-s2c-upload", "early-credit", "burst", "blocked-s2c-bulk", "grpc-partial", "blocked-c2s-reset", "blocked-s2c-reset"}
 	events   = []string{"bad-preface", "closing-first", "server-close-slow-client", "server-close-slow-client-credit", "server-close-slow-client-credit-close", "client-close", "server-close", "server-reset", "client-write-fail", "client-read-deadline", "client-ack-write-fail", "client-proto-error", "server-proto-error", "closing"}
 	variants = []string{"continuation-without-headers", "bad-padding", "settings-bad-length", "max-frame-size-zero", "settings-invalid-value"}
 
@@ -118,7 +125,7 @@ func valid(c Case) bool {
 	if c.State == "backedup-s2c-upload" {
 		return c.Event == "closing" || c.Event == "server-close"
 	}
-	if c.State == "early-credit" || c.State == "burst" || c.State == "blocked-s2c-bulk" {
+	if c.State == "early-credit" || c.State == "burst" || c.State == "blocked-s2c-bulk" || c.State == "grpc-partial" || c.State == "blocked-c2s-reset" || c.State == "blocked-s2c-reset" {
 		return c.Event == "client-close" || c.Event == "server-close" || c.Event == "closing"
 	}
 	if (c.State == "handshake") != (c.Event == "bad-preface" || c.Event == "closing-first" || (c.State == "handshake" && (c.Event == "client-close" || c.Event == "closing"))) {
@@ -166,7 +173,10 @@ func arrange(c Case, s *h2kit.Session, bound time.Duration) string {
 	case "blocked-c2s":
 		sInit = []h2kit.Setting{{ID: 4, Val: 0}}
 		cl.SetAutoAck(false) // the client has not processed the server's SETTINGS yet
-	case "blocked-s2c", "queued-s2c", "blocked-s2c-bulk":
+	case "blocked-c2s-reset":
+		sInit = []h2kit.Setting{{ID: 4, Val: 0}}
+		cl.SetAutoAck(false)
+	case "blocked-s2c", "queued-s2c", "blocked-s2c-bulk", "blocked-s2c-reset":
 		cInit = []h2kit.Setting{{ID: 4, Val: 0}}
 		sv.SetAutoAck(false)
 	case "backedup-c2s":
@@ -183,10 +193,10 @@ func arrange(c Case, s *h2kit.Session, bound time.Duration) string {
 	// nothing may still be on its way when the event happens: also wait for the
 	// acknowledgements (none from a side that has not processed SETTINGS yet)
 	svAcks, clAcks := 1, 1
-	if c.State == "blocked-c2s" {
+	if c.State == "blocked-c2s" || c.State == "blocked-c2s-reset" {
 		svAcks = 0
 	}
-	if c.State == "blocked-s2c" || c.State == "queued-s2c" || c.State == "blocked-s2c-bulk" {
+	if c.State == "blocked-s2c" || c.State == "queued-s2c" || c.State == "blocked-s2c-bulk" || c.State == "blocked-s2c-reset" {
 		clAcks = 0
 	}
 	if !sv.Wait(bound, func(r *h2kit.Rec) bool { return (r.PrefaceOK && len(r.Settings) >= 1 && r.Acks >= svAcks) || r.Done }) ||
@@ -194,6 +204,18 @@ func arrange(c Case, s *h2kit.Session, bound time.Duration) string {
 		return "preface, SETTINGS and acknowledgements were not forwarded"
 	}
 	if c.State == "idle" || c.State == "idle-no-alpn" {
+		return ""
+	}
+	if c.State == "grpc-partial" {
+		cl.WriteHeaders(h2kit.HeadersSpec{Stream: 1, Pad: -1, Fields: append(append([]h2kit.Field(nil), reqFields...), h2kit.Field{N: "content-type", V: "application/grpc"}, h2kit.Field{N: "te", V: "trailers"})})
+		msg := append([]byte{0, 0, 0, 0, 7}, kit.Bytes(1, 7)...)
+		cl.WriteData(1, msg, -1, false)
+		if !sv.Wait(bound, func(r *h2kit.Rec) bool { return r.DataBytes[1] >= len(msg) || r.Done }) {
+			return "the first gRPC message was not forwarded"
+		}
+		cl.WriteData(1, []byte{0, 0, 0}, -1, false) // the next message's prefix, so far
+		kit.Eventually(bound, func() bool { return s.Duplex.Pending() == 0 })
+		time.Sleep(20 * time.Millisecond) // (sets the scene: the adapter has the three octets)
 		return ""
 	}
 	if c.State == "burst" {
@@ -259,9 +281,9 @@ func arrange(c Case, s *h2kit.Session, bound time.Duration) string {
 			// (not waited for: a relay that chokes here has to end the session all the same)
 			cl.Wait(bound/6, func(r *h2kit.Rec) bool { return r.DataBytes[3] >= 1000 || r.Done })
 		}
-	case "blocked-c2s", "blocked-s2c", "queued-s2c", "blocked-s2c-bulk":
+	case "blocked-c2s", "blocked-s2c", "queued-s2c", "blocked-s2c-bulk", "blocked-c2s-reset", "blocked-s2c-reset":
 		S, R := cl, sv
-		if c.State != "blocked-c2s" {
+		if c.State != "blocked-c2s" && c.State != "blocked-c2s-reset" {
 			S, R = sv, cl
 		}
 		if c.State == "blocked-s2c-bulk" {
@@ -276,7 +298,9 @@ func arrange(c Case, s *h2kit.Session, bound time.Duration) string {
 			for i := 0; i < 3; i++ {
 				S.WriteData(1, kit.Bytes(uint64(i), 1000), -1, false)
 			}
-			S.WriteHeaders(h2kit.HeadersSpec{Stream: 1, Pad: -1, EndStream: true, Fields: []h2kit.Field{{N: "x-trail", V: "1"}}})
+			if c.State != "blocked-c2s-reset" && c.State != "blocked-s2c-reset" {
+				S.WriteHeaders(h2kit.HeadersSpec{Stream: 1, Pad: -1, EndStream: true, Fields: []h2kit.Field{{N: "x-trail", V: "1"}}})
+			}
 		}
 		S.WritePing(false, h2kit.MarkerPing(1))
 		if c.State == "blocked-s2c-bulk" {
@@ -290,6 +314,11 @@ func arrange(c Case, s *h2kit.Session, bound time.Duration) string {
 		R.With(func(r *h2kit.Rec) { held = r.DataBytes[1] == 0 })
 		if !held {
 			return "DATA passed a zero window"
+		}
+		if c.State == "blocked-c2s-reset" || c.State == "blocked-s2c-reset" {
+			S.WriteRST(1, 8)                           // the transfer is cancelled while its DATA waits in the relay
+			S.WritePriority(3, h2kit.Prio{Weight: 10}) // and the sender goes on to the next stream
+			R.Wait(bound/6, func(r *h2kit.Rec) bool { return len(r.Streams[3]) > 0 || r.Done })
 		}
 	case "backedup-c2s", "backedup-s2c", "backedup-s2c-upload":
 		S, R := cl, sv
@@ -358,6 +387,9 @@ func runOnce(c Case, bound time.Duration) (v kit.Verdict, slow bool) {
 	}
 	if c.State == "backedup-c2s" {
 		o.ServerRcvBuf = 8 << 10
+	}
+	if c.State == "grpc-partial" {
+		o.Factories = []h2.StreamProcessorFactory{h2kit.GRPCFactory()}
 	}
 	o.PreClosed = c.Event == "closing-first"
 	o.NoALPN = c.State == "idle-no-alpn"
